@@ -5,6 +5,7 @@ import (
 	"math"
 	"os"
 	"path/filepath"
+	"regexp"
 	"strings"
 	"time"
 
@@ -223,10 +224,30 @@ func minInt(a, b int) int {
 	return b
 }
 
+var reCounterLoop = regexp.MustCompile(`for\s+\w+\s*:?=`)
+
+// clampData keeps every number a mutated template may use as a loop bound small.
+func clampData(d *DataEnv) {
+	u := &d.User
+	u.Ustate %= 40
+	if u.Status > 1000 || u.Status < -1000 {
+		u.Status = 7
+	}
+	for i := range d.Statics {
+		v := &d.Statics[i]
+		if v.I > 1000 || v.I < -1000 {
+			v.I = 9
+		}
+		if v.U > 1000 {
+			v.U = 11
+		}
+	}
+}
+
 func runFuzz(o *Options, res *Result, rng *RNG, n int, prop string) {
 	seeds := seedSources()
 	prof := profiles["ALL"]
-	parseHang, renderHang := 0, 0
+	parseHang, renderHang, longLoops := 0, 0, 0
 	for i := 0; i < n && parseHang < 3 && renderHang < 3; i++ {
 		var src []byte
 		var data *DataEnv
@@ -240,6 +261,7 @@ func runFuzz(o *Options, res *Result, rng *RNG, n int, prop string) {
 			src = mutate(rng, []byte(ic.vc.Src))
 			data = ic.vc.Data
 		}
+		clampData(data)
 		res.Evaluations++
 		key, _, po := parseDump(src, rng.Bool())
 		res.Hist("fuzz:parse-" + po.ErrClass())
@@ -272,6 +294,16 @@ func runFuzz(o *Options, res *Result, rng *RNG, n int, prop string) {
 		}
 		if r.Obs.Panic != "" && !r.Obs.InRepo() {
 			res.Hist("fuzz:external-panic:" + r.Obs.Frame)
+			continue
+		}
+		if r.Obs.Hang && reCounterLoop.Match(src) {
+			// a counter loop runs as long as its bounds say (a mutated literal can ask for 10^10
+			// iterations): long, not unbounded, and not a defect of the engine
+			res.Hist("fuzz:long-counter-loop")
+			longLoops++
+			if longLoops >= 4 {
+				break
+			}
 			continue
 		}
 		if r.Obs.Panic != "" || r.Obs.Hang {
